@@ -135,3 +135,48 @@ def eq_atoms(out, func=None):
         pol = ev.data[0] if isinstance(op, ast.Eq) else (not ev.data[0])
         res.append((pol, a, b, ev, val))
     return res
+
+
+def find_pack(tag, fmt):
+    """locate a ('pack', fmt, args) tag inside slice/concat wrappers"""
+    if not isinstance(tag, tuple) or not tag:
+        return None
+    if tag[0] == "pack":
+        return tag if tag[1] == fmt else None
+    if tag[0] == "slice":
+        return find_pack(tag[1], fmt)
+    if tag[0] == "concat":
+        for t in tag[1]:
+            r = find_pack(t, fmt)
+            if r is not None:
+                return r
+    return None
+
+
+def resolve_unpacked(v, depth=4):
+    """follow struct.unpack(struct.pack(..)) chains back to the packed argument"""
+    v = norm(v)
+    while depth and isinstance(v, Sym) and v.attrs.get("unpack"):
+        fmt, k, buf = v.attrs["unpack"]
+        hit = None
+        for tag, _ln in getattr(buf, "parts", []):
+            hit = find_pack(tag, fmt)
+            if hit is not None:
+                break
+        if hit is None or k >= len(hit[2]):
+            return v
+        v = norm(hit[2][k])
+        depth -= 1
+    return v
+
+
+def base_deps(v):
+    """symbol names a value depends on, with per-bit sources folded onto their symbol"""
+    from ..interp_expr import deps_of
+    out = set()
+    for d in deps_of(norm(v)):
+        if isinstance(d, tuple) and len(d) == 2 and isinstance(d[0], str) and isinstance(d[1], (int, str)):
+            out.add(d[0])
+        else:
+            out.add(d)
+    return out
